@@ -13,7 +13,7 @@ ASSUMPTIONS = [
 def run(tier, seed):
     common.PID_ALIAS.update({"SQLM": "C12", "KVM": "C12"})
     from .. import extra, relay
-    return common.drop_foreign(sqlm.suites_c12(tier, seed) + kvb.suites_c12(tier, seed) + [extra.suite_cap_plain_subscribe(tier, seed), extra.suite_config_defaults(tier, seed, ("max_limit",)), relay.suite_validate(tier, seed, pid="C12", entry="filt.validate")], "C12")
+    return common.drop_foreign(sqlm.suites_c12(tier, seed) + kvb.suites_c12(tier, seed) + [extra.suite_cap_plain_subscribe(tier, seed), extra.suite_config_defaults(tier, seed, ("max_limit",)), extra.suite_simultaneous_reqs(tier, seed), relay.suite_validate(tier, seed, pid="C12", entry="filt.validate")], "C12")
 
 
 def replay(payload):
